@@ -76,4 +76,14 @@ META = {
   text="That a value range covers text equal to the value, inside the comment, with start<=end, is proved for every comment text and value (multi-byte included); the matcher's soundness (C16) supplies that every captured value is a contiguous part of the line. Every run slices the real source of generated/perturbed projects by each reported range and checks file, containment in the entity's comment+declaration, covered text, duplicates, and code/severity against the validator model.",
   note="Open finding C18-F1 (duplicate entity blocks in the error text; pinned by the suite).",
  ),
+ "C13": dict(
+  technique="Lean 4 proof (sorting makes the visiting order a function of the set of files: permutation invariance; serial assignment is a function of that order; positions of the sorts decided on regenerated call skeletons) + byte comparison of artifacts from repeated brand-new sessions",
+  text="That any two enumerations of the same files/controllers lead to the same visiting order, hence the same import serials, is a Lean theorem (sorted permutations are equal); that the sorts exist and sit after the map iterations is decided on call skeletons regenerated from packages.facade.go and pipeline.go on every run. Each run also compares the bytes of the routes file and both spec versions across five brand-new sessions per generated project, across engines for the spec, and dated vs undated routes.",
+  note="Holds after fix 9a8836e (file-name order, controller order). No injection hooks: order variation comes from Go's map randomisation.",
+ ),
+ "C19": dict(
+  technique="Lean 4 proof (serial memo: a second pass over the same keys yields the same ids and leaves the memo unchanged - induction over the key list; graph idempotence from C17) + history correspondence (repeated analysis on one pipeline vs fresh pipeline)",
+  text="Re-running the analysis hands out the same generated-code identifiers and does not change the memo (theorem over every key sequence); re-inserting a same-version node or an existing edge changes nothing in the graph (C17 theorems). Each run repeats GenerateGraph/Validate/GenerateIntermediate 1-3 times on one real pipeline per generated project and compares the canonical metadata with the first round and with a brand-new session, and the graph's node count across rounds.",
+  note="Depends on fix 9a8836e for the comparison with a brand-new session (serial numbering used to depend on map order).",
+ ),
 }
